@@ -265,6 +265,13 @@ TaxReportFails(W, as, tx) ==
                    x == EOf(r)[r.ev]
                IN /\ r.evcls = x.cls /\ r.evtype = TypeOf(x) /\ r.sold = Day(x)
                   /\ IF r.lot = 0 THEN ~r.haslot ELSE r.haslot /\ r.acquired = Day(EOf(r)[r.lot])>>,
+       <<"C14.proceeds_and_cost_basis_follow_the_transactions",
+            \A i \in 1..Len(tx.rows) :
+               LET r == tx.rows[i]
+                   x == EOf(r)[r.ev]
+               IN /\ r.proc * Total(x) = TaxFiat(W.Q, x) * r.amt
+                  /\ (r.lot # 0 => r.cost * EOf(r)[r.lot].amt = LotCost(W.Q, EOf(r)[r.lot]) * r.amt)
+                  /\ r.gain = r.proc - r.cost>>,
        <<"C14.sheets_without_rows_omitted", ToSet(tx.sheets) = {tx.rows[i].sheet : i \in 1..Len(tx.rows)} /\ NoRepeat(tx.sheets)>> })
      \cup (IF \E i, j \in 1..Len(tx.rows) : tx.rows[i].sheet = tx.rows[j].sheet /\ tx.rows[i].asset # tx.rows[j].asset THEN {"W.C14.assets_share_a_sheet"} ELSE {})
      \cup (IF Cardinality(ToSet(tx.sheets)) >= 2 THEN {"W.C14.several_sheets"} ELSE {})
